@@ -305,6 +305,42 @@ void run_case(Rng& rng, std::uint64_t idx)
 
 } // namespace
 
+// value / variance / error formulas on constructed results, for call numbers far beyond what a run can afford
+void accessor_case(Rng& rng)
+{
+    for (int rep = 0; rep < 200; ++rep)
+    {
+        std::size_t N;
+        switch (rng.below(5))
+        {
+        case 0: N = rng.range(2, 1000); break;
+        case 1: N = (std::size_t(1) << 32) + rng.range(0, 5); break;
+        case 2: N = std::size_t(1) << rng.range(33, 62); break;
+        case 3: N = rng.next() >> rng.below(30); if (N < 2) N = 2; break;
+        default: N = rng.range(2, 4000000000ULL); break;
+        }
+        if (std::is_same<T, float>::value && N > (std::size_t(1) << 24)) N = (N >> 40) + 2;     // T(N) must be exact enough
+        LD E = (rng.below(2) ? 1 : -1) * std::pow(10.0L, (LD)rng.u01l() * 6 - 3);
+        LD relS = std::pow(10.0L, -3 + 3 * rng.u01l());
+        LD S = relS * std::fabs(E);
+        T sum = T(E * N), sumsq = T((LD)N * (E * E + (LD)(N - 1) * S * S));
+        if (!std::isfinite(sum) || !std::isfinite(sumsq)) continue;
+        hep::mc_result<T> r(N, N, N, sum, sumsq);
+        LD Sl = sum, Ql = sumsq, Nl = N;
+        LD val = Sl / Nl, var = (Ql / Nl - val * val) / (Nl - 1);
+        LD kappa = 1 + val * val / ((Nl - 1) * std::fabs(var));
+        J info;
+        info.s("T", tname<T>::get()).u("N", N).f("sum", sum).f("sum_of_squares", sumsq);
+        count("constructed_results_checked");
+        if (N > (std::size_t(1) << 32)) count("constructed_results_with_N>2^32");
+        if (!close_rel<T>(r.value(), val, 4)) { viol("value!=sum/N", J(info).f("value", r.value()).f("expected", val)); return; }
+        if (kappa * eps<T>() * 64 > 0.05L) continue;
+        if (!close_rel<T>(r.variance(), var, 8 + 16 * kappa)) { viol("variance-formula", J(info).f("variance", r.variance()).f("expected", var).f("kappa", kappa)); return; }
+        if (var > 0 && !close_rel<T>(r.error(), std::sqrt(var), 8 + 16 * kappa)) { viol("error!=sqrt(variance)", J(info).f("error", r.error()).f("expected", std::sqrt(var))); return; }
+    }
+    ++ctx().evaluations;
+}
+
 std::uint64_t vfh_num_cases(bool thorough) { return thorough ? 9000 : 300; }
-void vfh_run_case(std::uint64_t idx, Rng& rng) { run_case(rng, idx); }
+void vfh_run_case(std::uint64_t idx, Rng& rng) { if (idx % 10 == 9) accessor_case(rng); else run_case(rng, idx); }
 void vfh_selftest() {}
